@@ -3,6 +3,7 @@ package sym
 import (
 	"fmt"
 	"go/types"
+	"sync"
 
 	"golang.org/x/tools/go/ssa"
 
@@ -48,9 +49,10 @@ type Object struct {
 }
 
 func (o *Object) clone(ep *epoch) *Object {
-	c := *o
+	// field-wise copy: the cached hash of o may be written concurrently by another worker
+	c := Object{Kind: o.Kind, Cells: o.Cells, Ents: o.Ents, Buf: o.Buf, Cap: o.Cap, Closed: o.Closed, Snap: o.Snap,
+		TimerAt: o.TimerAt, IterMap: o.IterMap, IterIdx: o.IterIdx, IterStr: o.IterStr, T: o.T, Site: o.Site}
 	c.ep = ep
-	c.hash = 0
 	if o.Cells != nil {
 		c.Cells = append([]Value(nil), o.Cells...)
 	}
@@ -98,9 +100,9 @@ type Frame struct {
 }
 
 func (f *Frame) clone(ep *epoch) *Frame {
-	c := *f
+	c := Frame{Fn: f.Fn, Info: f.Info, Block: f.Block, IP: f.IP, Prev: f.Prev, Regs: f.Regs, Defers: f.Defers, Kind: f.Kind,
+		Unwind: f.Unwind, Recovered: f.Recovered, Atomic: f.Atomic, Loops: f.Loops}
 	c.ep = ep
-	c.hash = 0
 	c.Regs = append([]Value(nil), f.Regs...)
 	if f.Defers != nil {
 		c.Defers = append([]Deferred(nil), f.Defers...)
@@ -185,9 +187,9 @@ type Violation struct {
 
 // heapBase is an immutable layer of the heap shared by many states.
 type heapBase struct {
-	m      map[ObjID]*Object
-	sum    uint64
-	summed bool
+	m    map[ObjID]*Object
+	sum  uint64
+	once sync.Once
 }
 
 type State struct {
@@ -450,11 +452,11 @@ type fnInfo struct {
 	nphi []int
 }
 
-var fnInfos = map[*ssa.Function]*fnInfo{}
+var fnInfos sync.Map // *ssa.Function -> *fnInfo
 
 func infoOf(fn *ssa.Function) *fnInfo {
-	if fi, ok := fnInfos[fn]; ok {
-		return fi
+	if fi, ok := fnInfos.Load(fn); ok {
+		return fi.(*fnInfo)
 	}
 	fi := &fnInfo{fn: fn, index: map[ssa.Value]int{}}
 	n := 0
@@ -480,6 +482,8 @@ func infoOf(fn *ssa.Function) *fnInfo {
 		fi.nphi = append(fi.nphi, np)
 	}
 	fi.nregs = n
-	fnInfos[fn] = fi
+	if old, loaded := fnInfos.LoadOrStore(fn, fi); loaded {
+		return old.(*fnInfo)
+	}
 	return fi
 }
